@@ -340,12 +340,39 @@ def make_trees(ctx):
     return out, len(exh)
 
 
-def run_impl(impl: Impl, trees, ctx):
+def build_shared(impl: Impl, ctx):
+    """shared sub-expression programs: ONE Column object per sub-tree, reused in several larger expressions; all of
+    them are built here, before anything is evaluated.  -> list of (tree as written, Column | exception, program)"""
+    out = []
+    progs = T.shared_programs(random.Random(ctx.seed + 1), 40 if ctx.tier == "quick" else 400)
+    for u, ctxs in progs:
+        try:
+            X = impl.build(u)
+        except Exception as ex:
+            X = ex
+        for k, c in enumerate(ctxs):
+            tree = T.subst(c, u)
+            if double_cast(tree):
+                continue
+            try:
+                col = X if isinstance(X, Exception) else T.to_col(c, impl.F, hole=X)
+            except Exception as ex:
+                col = ex
+            out.append((tree, col, {"shared_subtree": u, "contexts": ctxs, "use": k}))
+    return out
+
+
+def run_impl(impl: Impl, trees, ctx, prebuilt=None):
     """-> list of dict(text, vals | err)"""
     res = [None] * len(trees)
     cols = []
     for i, t in enumerate(trees):
         try:
+            if prebuilt and i in prebuilt:
+                if isinstance(prebuilt[i], Exception):
+                    raise prebuilt[i]
+                cols.append(prebuilt[i])
+                continue
             cols.append(impl.build(t))
         except Exception as ex:
             cols.append(None)
@@ -410,8 +437,14 @@ def run(ctx: core.Ctx):
     # ---- implementation
     impl = Impl()
     trees_src, n_exh = make_trees(ctx)
+    shared = build_shared(impl, ctx)          # built completely before the first statement is sent
+    prebuilt, programs = {}, {}
+    for tree, col, prog in shared:
+        prebuilt[len(trees_src)] = col
+        programs[len(trees_src)] = prog
+        trees_src.append(("shared", tree))
     trees = [t for _, t in trees_src]
-    res, cols = run_impl(impl, trees, ctx)
+    res, cols = run_impl(impl, trees, ctx, prebuilt)
     ctx.log(f"{len(trees)} trees ({n_exh} bounded-exhaustive to depth 2), {impl.n_queries} select statements")
     # DuckDB's own parse of the real text
     parses = []
@@ -448,7 +481,7 @@ def run(ctx: core.Ctx):
     hist_depth, hist_kind, hist_src, hist_sig = {}, {}, {}, {}
     confirmed = set()       # markers seen deviating on a tree that has exactly that one marker
     devs = []
-    for (src, t), r, ps, f in zip(trees_src, res, parses, fields):
+    for idx, ((src, t), r, ps, f) in enumerate(zip(trees_src, res, parses, fields)):
         if f is None or len(f) != 7:
             continue
         mtext, mparse, intended, flags, mvals, svals, markers = f
@@ -463,6 +496,8 @@ def run(ctx: core.Ctx):
         desc = {"tree": t, "python": T.to_src(t), "sql_sent": r.get("text"), "sql_model": mtext,
                 "duckdb_parse": ps, "model_parse": mparse, "intended_tree": intended, "flags(in_class,safe,known,roundtrip)": flags,
                 "pyspark_values(spec)": svals, "unsafe_subtrees": markers}
+        if idx in programs:
+            desc["shared_program"] = programs[idx]   # the Column object of shared_subtree was built once and reused
         stats["evaluations"] += len(spec)
         if any(v == "N" for v in spec) and len(set(spec)) > 1 and T.depth(t) >= 1:
             stats["nontrivial"] += 1
@@ -588,7 +623,7 @@ def run(ctx: core.Ctx):
         "evaluations": stats["evaluations"], "distinct_nontrivial": stats["nontrivial"],
         "rule": "case = tree x 30 pool rows (NULL, 0, 1, -1, 2; '', 'a', 'ab'; true, false; arrays); evaluations = tree-row pairs; "
                 "non-trivial tree = depth >= 1, at least one row evaluates to NULL and not all rows agree; distinct by tree text",
-        "trees": len(trees), "bounded_exhaustive_trees": n_exh, "where_checked": n_where,
+        "trees": len(trees), "bounded_exhaustive_trees": n_exh, "shared_subexpression_uses": len(shared), "where_checked": n_where,
         "t2_text_equal": stats["t2_text_equal"], "t2_parse_equal": stats["t2_parse_equal"],
         "in_theorem_class": stats["in_class"], "outside_modelled_fragment(alias kept)": stats.get("outside_model", 0), "regrouped_by_engine": stats["regrouped"],
         "regrouped_but_value_equal_on_pool": stats["regrouped_value_equal"], "syntax_errors": stats["syntax_error"],
@@ -661,7 +696,15 @@ def replay(ctx: core.Ctx, rp: dict) -> int:
     print("expected:", r.get("pyspark_values(spec)"), "(PySpark values per pool row; # = outside the domain)")
     impl = Impl()
     try:
-        col = impl.build(t)
+        sp = r.get("shared_program")
+        if sp:
+            u = T.from_json(sp["shared_subtree"])
+            X = impl.build(u)
+            built = [T.to_col(T.from_json(c), impl.F, hole=X) for c in sp["contexts"]]   # all uses first, as in the run
+            col = built[sp["use"]]
+            print("shared  :", T.to_src(u), "built once and reused in", len(built), "expressions; this is use", sp["use"])
+        else:
+            col = impl.build(t)
         texts, vals = impl.select([col])
         got = "~".join(impl_val(v) for v in vals[0])
         print("sql     :", texts[0])
